@@ -140,3 +140,26 @@ def write_evidence(res, level='model_checking', checker_cmd=None):
   with open(path, 'w') as f:
     json.dump(ev, f, indent=1, default=str)
   return path
+
+
+class CallTimeout(BaseException):
+  """Raised by the watchdog inside a call of the code under test (BaseException: library code must not swallow it)."""
+
+
+def with_timeout(fn, seconds=150):
+  """Runs fn() under a SIGALRM watchdog (main thread of a process only). Termination is part of several properties;
+  a call that does not return is reported as an outcome instead of hanging the check."""
+  import signal
+  import threading
+  if threading.current_thread() is not threading.main_thread():
+    return fn()
+
+  def handler(signum, frame):
+    raise CallTimeout()
+  old = signal.signal(signal.SIGALRM, handler)
+  signal.alarm(int(seconds))
+  try:
+    return fn()
+  finally:
+    signal.alarm(0)
+    signal.signal(signal.SIGALRM, old)
